@@ -42,6 +42,12 @@ def _one(job):
             group.terminate(timeout=2)
         except Exception:
             pass
+        for proc, d in getattr(group, "_verif_cleanup", []):
+            proc.kill()
+            proc.wait()
+            import shutil
+
+            shutil.rmtree(d, ignore_errors=True)
 
 
 def _control(job):
